@@ -213,14 +213,22 @@ def bulk_case(name, rng: random.Random, large=False):
     contents = [hexs(bytes([65 + i]) * (i + 1)) for i in range(4)]
     n = rng.choice([100, 1000]) if large else rng.choice([7, 100, 1000])
     lines = [f"case {name}", f"cfg kt={kt} n={n} sync=0", "open"]
-    for k in keys:
-        lines.append(f"put {hexs(k)} {rng.choice(contents)}")
+    # in half of the large cases every key has its own content: a range removal then drops the last
+    # reference of hundreds of blobs at once
+    own = large and rng.random() < 0.5
+    for i, k in enumerate(keys):
+        lines.append(f"put {hexs(k)} {hexs(b'own-%05d' % i) if own else rng.choice(contents)}")
     lines += ["iter", "stats"]
     srt = sorted(keys, key=lambda b: sort_key(kt, b))
-    for _ in range(3):
+    for rnd in range(3):
         q = rng.random()
         if q < 0.35:
             lo, hi = "U", "U"
+        elif large and rnd == 0:
+            # the first removal of a large case always spans (nearly) everything: well over a thousand keys
+            i, j = rng.randrange(0, 20), len(srt) - rng.randrange(0, 20)
+            lo = ("I:" if rng.random() < 0.5 else "E:") + hexs(srt[i])
+            hi = "U" if j >= len(srt) else ("I:" if rng.random() < 0.5 else "E:") + hexs(srt[j])
         else:
             i = rng.randrange(0, len(srt) // 3)
             j = rng.randrange(max(i + 129, len(srt) * 2 // 3), len(srt) + 1) if len(srt) - i > 130 else len(srt)
@@ -313,6 +321,11 @@ def crash_corpus():
         "case corpus_roll1\ncfg kt=bytes n=1 sync=1\nopen\nput 61 01\nput 62 01\nput 61 02\nremove 62\nclose\nopen\nput 63 03\nclose\nend\n",
         "case corpus_reopen\ncfg kt=string n=3 sync=1\nopen\nput 61 01\nput 62 02\nclose\nopen\nput 63 03\nput 61 03\nclose\nopen\nremove_range U U\nclose\nend\n",
         "case corpus_ckpt\ncfg kt=u32 n=2 sync=1\nopen\nput 01000000 aa\ncheckpoint\nput 00010000 aa\nput 02000000 bb\ncheckpoint\nremove 01000000\nclose\nend\n",
+        # eleven rollovers of two-operation segments (segment ids reach two digits: 9_index.wal, still holding an
+        # operation above the snapshot's version, and 10_index.wal live together in the
+        # window between the append into a new segment and the snapshot rename), conflicting operations in
+        # consecutive segments
+        "case corpus_roll22\ncfg kt=bytes n=2 sync=1\nopen\n" + "".join(f"put 61 {i:02x}\n" if i % 6 else "remove 61\n" for i in range(1, 24)) + "close\nend\n",
     ]
 
 
@@ -388,6 +401,21 @@ def codec_lines(rng: random.Random, n: int):
             # huge count, tiny input
             hb = bytes([1]) + struct.pack('<I', rng.choice([0xffffffff, 0x80000000, 1000])) + rand_bytes(rng, rng.choice([0, 3, 4, 8]))
             lines.append((f"decop {hexs(hb)}", None))
+        elif r < 0.63:
+            # typed snapshot round trip: keys of one key type (numeric types: little-endian, so that the
+            # type's order differs from the byte order), ordered by the type, through encoder and decoder
+            kt, nb = rng.choice([("u16", 2), ("u32", 4), ("u64", 8), ("u128", 16), ("i8", 1), ("i16", 2), ("i32", 4), ("i64", 8), ("i128", 16), ("u8", 1), ("arr4", 4), ("bytes", 0), ("string", 0)])
+            def tkey():
+                if kt == "string": return rng.choice([b"", b"a", b"ab", "é".encode(), b"zz", b"k%d" % rng.randrange(50)])
+                if kt == "bytes": return rkey()
+                q = rng.random()
+                if q < 0.4: return rand_bytes(rng, nb)
+                if q < 0.6: return (rng.randrange(0, 600)).to_bytes(16, "little")[:nb]
+                if q < 0.8: return ((2 ** (8 * nb) - 1 - rng.randrange(0, 300)) % 2 ** (8 * nb)).to_bytes(nb, "little")
+                return bytes([0] * nb)
+            keys = list(dict.fromkeys(tkey() for _ in range(rng.choice([1, 2, 3, 6, 12]))))
+            es = ";".join(f"{hexs(k)}={rand_bytes(rng, 32).hex()}:{rsize()}" for k in keys)
+            lines.append((f"rtidx {kt} {rng.choice([0, 1, 7, 2**64 - 1])} {es}", f"same {len(keys)}"))
         elif r < 0.66:
             keys = sorted({rkey() for _ in range(rng.choice([0, 1, 2, 6]))})
             es = ";".join(f"{hexs(k)}={rand_bytes(rng, 32).hex()}:{rsize()}" for k in keys)
